@@ -57,6 +57,7 @@ func cmdRun(args []string) {
 	verbose := fs.Bool("v", false, "")
 	maxPaths := fs.Int64("max-paths", 0, "")
 	budget := fs.Int("budget", 0, "wall-clock budget in seconds per harness")
+	qto := fs.Int("qtimeout", 0, "solver per-query timeout in seconds")
 	params := fs.String("params", "", "k=v,k=v harness parameters")
 	vector := fs.String("vector", "", "comma-separated concrete nondet values (concrete run)")
 	finals := fs.String("final", "", "comma-separated portfolio solvers for undecided obligations (z3,z3-new,cvc5,cvc5-int)")
@@ -72,6 +73,9 @@ func cmdRun(args []string) {
 	cfg.Workers = *workers
 	cfg.Verbose = *verbose
 	cfg.MaxPaths = *maxPaths
+	if *qto > 0 {
+		cfg.QueryTimeout = time.Duration(*qto) * time.Second
+	}
 	cfg.Params = map[string]int{}
 	for _, kv := range strings.Split(*params, ",") {
 		if k, v, ok := strings.Cut(kv, "="); ok {
